@@ -282,6 +282,40 @@ let operator_query (toks : string list) (rhs : string) : string =
   | "PROP" :: _ -> "ok"
   | _ -> "?unknown-query"
 
+
+(* ---------------- C06 / C07 smoothers ---------------- *)
+let sm_nsc = ref 0 and sm_ext = ref false
+let sm_rowA i j =
+  let nr = z_of_int !op_nr and nth = z_of_int !op_nth in
+  q_A_take_row nr nth op_h op_k (tq !op_rad.(0)) (op_node op_arr) (op_node op_att) (op_node op_art) (op_node op_det) op_b !op_dirbc i j
+
+let smoother_query (toks : string list) (rhs : string) : string =
+  match toks with
+  | "OGRID" :: _ | "COEF" :: _ -> operator_query toks rhs
+  | ["SGRID"; nsc; kind] -> sm_nsc := ios nsc; sm_ext := (kind = "ext"); "ok"
+  | "SW" :: _impl :: _kind :: _idx :: "|" :: rest ->
+    (match fields rest with
+     | [x0; f0; ximpl] ->
+       let nr = z_of_int !op_nr and nth = z_of_int !op_nth and nsc = z_of_int !sm_nsc in
+       let x0q = List.map qfl x0 and fq = List.map qfl f0 in
+       let blocks = if !sm_ext then q_ext_smoother_blocks nr nth nsc else q_smoother_blocks nr nth nsc in
+       (* run the sweep block by block and certify each update: exact zero residual on the block *)
+       let cert = ref true in
+       let xq = List.fold_left (fun acc u ->
+           let acc' = q_block_update nth sm_rowA u acc fq in
+           List.iter (fun p -> let r = qt (q_resid nth sm_rowA acc' fq p) in
+                       if Big_int_Z.sign_big_int r.qnum <> 0 then cert := false) u;
+           acc') x0q blocks in
+       let xm = List.map (fun v -> float_of_q (qt v)) xq in
+       let xi = List.map fl ximpl in
+       let scale = Float.max (fmax xm) 1e-300 in
+       let dev = List.fold_left2 (fun a p q -> Float.max a (Float.abs (p -. q))) 0.0 xi xm in
+       let ok = !cert && dev <= 1e-9 *. scale && List.for_all Float.is_finite xi in
+       Printf.sprintf "CHECK %s dev=%.3e certified=%b" (if ok then "ok" else "FAIL") (dev /. scale) !cert
+     | _ -> "?bad-SW")
+  | "PROP" :: _ -> "ok"
+  | _ -> "?unknown-query"
+
 let () =
   let mode = if Array.length Sys.argv > 1 then Sys.argv.(1) else "" in
   let handler = match mode with
@@ -289,6 +323,7 @@ let () =
     | "linalg" -> (fun t _ -> linalg_query t)
     | "interp" -> (fun t _ -> interp_query t)
     | "operator" -> operator_query
+    | "smoother" -> smoother_query
     | _ -> prerr_endline ("unknown mode " ^ mode); exit 2 in
   try
     while true do
